@@ -6,6 +6,7 @@ import SlotVerif.Proofs.UfTotal
 import SlotVerif.Proofs.EqShrink
 import SlotVerif.Proofs.EqMerge
 import SlotVerif.Proofs.Add
+import SlotVerif.Proofs.GroupWrite
 /-!
 # C13 — Equalities are never lost and old handles stay valid
 
@@ -244,6 +245,27 @@ theorem insertions_change_nothing_old {s s'' : Snap} (hok : Snap.AddOK s) (hi : 
 
 /-- non-vacuity: the empty e-graph satisfies `AddOK` -/
 example : Snap.AddOK { uf := [], classes := [] } := ⟨fun e he => by simp at he, fun c hc => by simp at hc⟩
+
+/-! ### the group half of the contract of `move_to` / `shrink_slots`, checked on every logged merge and shrink (protocol `grpw`) -/
+
+/-- a merge entry accepted by `Grpw.mergeOK` supplies the group hypotheses of `equalities_survive_merge` (`hvt'`, `hgens`) and of
+`equalities_of_survivor_survive_merge` (`hgens`), and nothing was invented: every new generator lies in the subgroup generated
+by the survivor's old generators and the transported generators of the absorbed class -/
+theorem merge_contract_checked {Ωt : List Nat} {N : SlotMap} {fg tb ta : List Perm} (h : Grpw.mergeOK Ωt N fg tb ta = true) :
+    Grp.Valid Ωt ta ∧ (∀ g ∈ fg, Grp.Gen Ωt ta (Snap.conj N g)) ∧ (∀ g ∈ tb, Grp.Gen Ωt ta g) ∧
+    (∀ g ∈ ta, Grp.Gen Ωt (tb ++ fg.map (Snap.conj N)) g) :=
+  Grpw.mergeOK_spec h
+
+/-- a shrink entry accepted by `Grpw.shrinkOK`: the new group is the group generated by the restrictions of the old generators
+that respect the retained slot set — the hypothesis of `equalities_survive_shrink` -/
+theorem shrink_contract_checked {cap : List Nat} {before after : List Perm} (h : Grpw.shrinkOK cap before after = true) :
+    Grp.Valid cap after ∧
+    ∀ q, Grp.Gen cap after q ↔ Grp.Gen cap ((before.filter (Grp.preservesCap cap)).map (Grp.restrict cap)) q :=
+  Grpw.shrinkOK_spec h
+
+/-- non-vacuity: the class merged away has the swap of its two slots 0, 4 as generator, `N` maps the survivor's slots 8, 12 onto
+them, the survivor had no symmetry and has the transported swap afterwards -/
+example : Grpw.mergeOK [8, 12] [(8, 0), (12, 4)] [[(0, 4), (4, 0)]] [] [[(8, 12), (12, 8)]] = true := by decide
 
 /-- non-vacuity: two classes are allocated, class 1 (slots 0, 4) is merged into class 0 (slots 8, 12) with the arguments
 exchanged, then class 0 loses slot 12; all four writes pass the guards -/
